@@ -2,10 +2,11 @@
 from common_tb import COMMON_TB
 
 CFG = dict(
-    id="C09", tie="Tie.C09", n_quick=2400, n_thorough=14000, thorough_seeds=3, gen_timeout=2400,
+    id="C09", tie="Tie.C09", n_quick=1700, n_thorough=14000, thorough_seeds=3, gen_timeout=2400,
     rule="real stores in temp dirs, one per configuration (tx header version 0/1 x values embedded / one value log / "
          "several value logs, file sizes 128..4096 so that records span chunk files, tx and key metadata, empty values, "
-         "a flate-compressed value log), 4-5 small transactions each; closed; then one COPY of the directory per "
+         "a flate-compressed value log; four of the seven with a value cache, VLogCacheSize = 64), 4-5 small "
+         "transactions each; closed; then one COPY of the directory per "
          "corruption: for every offset class of every committed record (each header field, MdLen/Md, NEntries, per "
          "entry mdLen/md/kLen/key/vLen/vOff/hVal, trailing Alh) single-bit flips, one byte set to a boundary value, the "
          "whole field randomised, numeric fields +-1/0/max/shifted; dedicated value-reference edits (vLen 0/shorter/"
@@ -13,13 +14,18 @@ CFG = dict(
          "once; random runs of 2..41 bytes; zeroed runs; another committed record copied over this one; consistent "
          "rewrites (key / hVal / value / Ts changed, Eh and Alh recomputed, stored Alh replaced); value bytes (bit flips, "
          "random, zeroed) in the value log or in the tx log (embedded); the embedded-values length prefix; physical "
-         "bytes of the compressed value log. On each copy: Open, ReadTx, ReadValue on every entry ReadTx returned, "
-         "ReadTxHeader, ReadTxEntry, ExportTx, TxReader ascending (this tx and the next: PrevAlh chain) and "
-         "descending, DualProof; every 8th copy also index rebuild + Get/Resolve of every key; each call under "
-         "recover() and a timeout. Direct check: error, or byte-identical to what the pristine store returned. Cases "
+         "bytes of the compressed value log. On each copy: Open, ReadTx, ReadValue TWICE on every entry ReadTx returned "
+         "(the second read may be served by the value cache), ReadTxHeader, ReadTxEntry, ExportTx twice, TxReader "
+         "ascending (this tx and the next: PrevAlh chain) and descending, DualProof; then, always when key / key length / "
+         "key metadata may be affected and for a quarter to a half of the other copies: the index directory is "
+         "deleted, the store reopened, indexing awaited for at most 500 ms (an indexer that stops is fine), and the "
+         "rebuilt index is scanned without filters, every committed key and the key bytes as altered are looked up "
+         "(Get, GetWithPrefix) and every served reference resolved twice: a served key must be a committed key with "
+         "its committed transaction, digest, metadata and value; each call under recover() and a timeout. Direct check: error, or byte-identical to what the pristine store returned. Cases "
          "for the model: the tx-log bytes from the record's offset to the end of the log with what ReadTx / ReadTx(skip) / "
-         "ReadTxHeader returned, the value logs with what ReadValue returned, the value part of ExportTx, the pristine "
-         "records against the model writer, SHA-256 vectors. vLen is kept below 4 MiB; three regression probes: vLen = 1 GiB (allocation "
+         "ReadTxHeader returned (reads that fail: every other copy), the SESSION of value reads of the copy in order "
+         "(ReadValue x2 per entry, ExportTx x2) against the model threading the value cache, the pristine records against "
+         "the model writer, SHA-256 vectors. vLen is kept below 4 MiB; three regression probes: vLen = 1 GiB (allocation "
          "measured with runtime.MemStats; fixed by 85f50b0), value-log ids the store does not have (panic fixed by "
          "c6a3ff8), vLen+1 on the compressed log (allocation fixed by 73fe655): each is a VIOLATION if it comes back. A case is non-trivial when bytes the read touches were altered or (pristine "
          "cases) a whole real record/value is involved; distinct by full case content.",
@@ -29,8 +35,8 @@ CFG = dict(
         "Tx.readFrom, TxEntryDigest_v1_1/_v1_2, TxHeader.innerHash/Alh, htree.BuildWith, ReadValue/readValueAt/"
         "decodeOffset/fetchVLog, the value loop of ExportTx; metadata codecs from coq/Store/Codec.v",
         "NOT modelled (harness direct check only): compressed value logs (decompressor), multiapp chunking and caches "
-        "(txLogCache, vLogCache), the commit log (its entries are not in the corrupted region: offset and size are taken "
-        "as given), Open's validation of the last transaction, TxReader, DualProof/LinearProof generation, the indexer, "
+        "(txLogCache; the value cache IS modelled, without eviction), the commit log (its entries are not in the corrupted region: offset and size are taken "
+        "as given), Open's validation of the last transaction, TxReader, DualProof/LinearProof generation, the indexer and index rebuild (falsifier only), "
         "KV expiry (entries use expiry times in the year 2100), pkg/database and pkg/server/corruption_checker",
         "executable SHA-256 of coq/Merkle/Sha256.v (Coq primitive Uint63 under vm_compute) runs the model and the "
         "witnesses of coq/Corrupt/Witness.v; validated against crypto/sha256 by the CSha cases of this check; every "
